@@ -48,6 +48,9 @@ func NewDialerSelectionPolicyFromGroupParam(param *config.Group) (policy *Dialer
 		if err != nil {
 			return nil, fmt.Errorf(`invalid "%v" param format: %w`, f.Name, err)
 		}
+		if index < 0 {
+			return nil, fmt.Errorf(`invalid "%v" param: negative index %v`, f.Name, index)
+		}
 		return &DialerSelectionPolicy{
 			Policy:     consts.DialerSelectionPolicy(f.Name),
 			FixedIndex: index,
@@ -56,4 +59,12 @@ func NewDialerSelectionPolicyFromGroupParam(param *config.Group) (policy *Dialer
 	default:
 		return nil, fmt.Errorf("unexpected policy: %v", f.Name)
 	}
+}
+
+// ValidateForGroup reports a fixed(i) policy whose index does not address a member of a non-empty group of n nodes.
+func (p *DialerSelectionPolicy) ValidateForGroup(n int) error {
+	if n > 0 && p.Policy == consts.DialerSelectionPolicy_Fixed && (p.FixedIndex < 0 || p.FixedIndex >= n) {
+		return fmt.Errorf("policy fixed(%v) is out of range: the group has %v node(s)", p.FixedIndex, n)
+	}
+	return nil
 }
